@@ -898,12 +898,16 @@ def cr13_wf(ctx, vals):
     return S.And(*cs)
 
 
-def _mk_cr13_lemmas(n_sig, n_gen):
+def _mk_cr13_lemmas(n_sig, n_gen, write_side=True):
     tag = 'tls13-%s' % ('+'.join((['sigalgs'] if n_sig else []) + (['unknown-ext'] if n_gen else [])) or 'no-ext')
 
-    @scenario('layout-CertificateRequest-%s' % tag, PROP,
-              doc='write side, TLS 1.3 framing (%s): write() has exactly the RFC 8446 4.3.2 layout, every length field is the '
-                  'sum of what it encloses; ValueError iff something does not fit' % tag)
+    def _reg(fn):
+        return scenario('layout-CertificateRequest-%s' % tag, PROP,
+                        doc='write side, TLS 1.3 framing (%s): write() has exactly the RFC 8446 4.3.2 layout, every length '
+                            'field is the sum of what it encloses; ValueError iff something does not fit' % tag)(fn) \
+            if write_side else fn
+
+    @_reg
     def layout(api):
         x, y, ctx, vals, st = _cr13_setup(api, n_sig, n_gen)
         wf = cr13_wf(ctx, vals)
@@ -953,5 +957,20 @@ def _mk_cr13_lemmas(n_sig, n_gen):
             api.oblige(o2.st, 'consumed-exactly', ns.f(p, 'index') == S.len_(wire))
 
 
-for _ns, _ng in ((0, 0), (1, 0), (1, 1)):
-    _mk_cr13_lemmas(_ns, _ng)
+_mk_cr13_lemmas(0, 0)
+_mk_cr13_lemmas(1, 0, write_side=False)
+REG.note('C15', 'not_built', 'CertificateRequest TLS 1.3 framing: the write-side layout lemma is proved only for the empty extension block; '
+         'for a non-empty block (nested Writers: ext.write() copied into sub_writer, then into the message) and for the parse side '
+         'with more than the signature_algorithms extension only the differential run specs.extensions_codec:certificate_request covers it. '
+         'CertificateRequest TLS <= 1.2: proved for 0..3 DistinguishedName entries (contents and all other lists arbitrary); the exactness '
+         'contract CertificateRequest._parse_tls12 holds for any number of entries')
+REG.note('C15', 'not_built', 'NewSessionTicket (TLS 1.3), SessionTicketPayload v0-v2, EncryptedExtensions, extension classes outside the four '
+         'parametric families (SNI, ALPN, key_share, pre_shared_key, status_request, ...): no contracts; NewSessionTicket (no extensions) and '
+         'SessionTicketPayload v0/v2 without client certificates are covered by the differential run specs.extensions_codec:tickets')
+REG.note('C15', 'assumptions', 'extension families: round trips are proved per concrete subclass through its real constructor (widths 1/2, '
+         'tuple arity 2); the symbolic-parameter contracts require elemLength >= 1 / lengthLength >= 0; with lengthLength == 0 or '
+         'elem_length == 0 a present empty value would be indistinguishable from the absent one (no subclass uses 0)')
+for _p in PROP:
+    REG.xchecks.append({'prop': _p, 'module': 'specs.extensions_codec', 'name': 'extension_families', 'function': E + 'VarListExtension.parse'})
+    REG.xchecks.append({'prop': _p, 'module': 'specs.extensions_codec', 'name': 'certificate_request', 'function': M + 'CertificateRequest._parse_tls12'})
+    REG.xchecks.append({'prop': _p, 'module': 'specs.extensions_codec', 'name': 'tickets', 'function': M + 'NewSessionTicket1_0.parse'})
